@@ -8,6 +8,7 @@ import (
 	"encoding/hex"
 	"encoding/json"
 	"fmt"
+	"io"
 	"os"
 	"os/exec"
 	"path/filepath"
@@ -69,6 +70,16 @@ type runT struct {
 	// DelayMs is filled in when a case is recorded (the delay that was actually used) and
 	// honoured on replay.
 	DelayMs float64 `json:"delay_ms,omitempty"`
+	// Overlap > 0 (completed runs only): the restart schedule is not sequential here. This
+	// run's process stays alive - server running, store open - after its identity has been
+	// observed, and the next Overlap runs of the history are started WHILE IT IS STILL ALIVE
+	// (a new instance started before the old one has gone: rolling restart, impatient
+	// supervisor, second container on the same volume). After them this process is ended as
+	// End says and the history goes on sequentially.
+	Overlap int `json:"overlap,omitempty"`
+	// End: how the process of a run with Overlap > 0 goes away after the overlapping runs:
+	// "exit" (told to stop; exits like every other run) or "kill" (SIGKILL).
+	End string `json:"end,omitempty"`
 }
 
 func (r runT) killed() bool { return r.Kill >= 0 || r.KillRec > 0 || r.KillSibling }
@@ -197,6 +208,9 @@ func (c histCase) nontrivial() bool {
 		}
 		if i < len(c.Runs)-1 && !r.killed() && r.Clients >= 2 && len(r.enabled()) > 0 {
 			return true
+		}
+		if i < len(c.Runs)-1 && !r.killed() && r.Overlap > 0 {
+			return true // a run is started while this one is still alive
 		}
 	}
 	completed := 0
@@ -473,31 +487,168 @@ func watchSiblings(dataDir string, stop chan struct{}, seen func(string), kill f
 	return ready, finished
 }
 
+// childCmd prepares (does not start) one sensor process on dataDir: the test binary in child
+// mode, result pipe on fd 3 (pr is the parent's end, pw the child's - close it after Start).
+func childCmd(dataDir string, r runT, hold bool) (cmd *exec.Cmd, out *tailBuf, pr, pw *os.File, err error) {
+	spec := Spec{DataDir: dataDir, SSH: r.SSH, FTP: r.FTP, SMTP: r.SMTP, LDAP: r.LDAP, Agent: r.Agent, More: r.More, Clients: r.Clients, Hold: hold}
+	sj, _ := json.Marshal(spec)
+	pr, pw, err = os.Pipe()
+	if err != nil {
+		return
+	}
+	cmd = exec.Command(selfExe, "-test.run=^$")
+	var env []string
+	for _, e := range os.Environ() {
+		if strings.HasPrefix(e, "VERIF_OUT=") || strings.HasPrefix(e, "VERIF_REPLAY=") || strings.HasPrefix(e, "VERIF_C18_CHILD=") || strings.HasPrefix(e, "VERIF_DATADIR=") || strings.HasPrefix(e, "TMPDIR=") {
+			continue
+		}
+		env = append(env, e)
+	}
+	// whatever a sensor process puts into the temporary directory goes away with the history
+	cmd.Env = append(env, "VERIF_C18_CHILD="+string(sj), "TMPDIR="+filepath.Dir(dataDir))
+	out = &tailBuf{}
+	cmd.Stdout = out
+	cmd.Stderr = out
+	cmd.ExtraFiles = []*os.File{pw}
+	cmd.Dir = filepath.Dir(dataDir)
+	return
+}
+
+// heldT is a sensor process that completed its start, was observed and is kept alive while
+// further runs of the history are started on the same data directory.
+type heldT struct {
+	cmd      *exec.Cmd
+	stdin    io.WriteCloser
+	pr       *os.File
+	waitDone chan struct{} // closed when the process has been reaped
+	readDone chan struct{}
+	ended    bool
+}
+
+// startHeld starts one sensor process that stays alive after reporting its identity. It
+// returns when the identity has arrived or the process is gone.
+func startHeld(dataDir string, r runT) (*heldT, childResult) {
+	var res childResult
+	cmd, out, pr, pw, err := childCmd(dataDir, r, true)
+	if err != nil {
+		res.HarnessErr = "pipe: " + err.Error()
+		return nil, res
+	}
+	stdin, err := cmd.StdinPipe()
+	if err != nil {
+		pr.Close()
+		pw.Close()
+		res.HarnessErr = "pipe: " + err.Error()
+		return nil, res
+	}
+	t0 := time.Now()
+	if err := cmd.Start(); err != nil {
+		pr.Close()
+		pw.Close()
+		res.HarnessErr = "exec: " + err.Error()
+		return nil, res
+	}
+	pw.Close()
+	h := &heldT{cmd: cmd, stdin: stdin, pr: pr, waitDone: make(chan struct{}), readDone: make(chan struct{})}
+	var mu sync.Mutex
+	gotIdentity := make(chan struct{})
+	go func() {
+		defer close(h.readDone)
+		sc := bufio.NewScanner(pr)
+		sc.Buffer(make([]byte, 1<<20), 1<<24)
+		for sc.Scan() {
+			var m childMsg
+			if json.Unmarshal(sc.Bytes(), &m) != nil {
+				continue
+			}
+			mu.Lock()
+			switch m.Ev {
+			case "boot":
+				res.SawBoot = true
+				res.BootAt = time.Since(t0)
+			case "started":
+				res.SawStarted = true
+				res.StartedAt = time.Since(t0)
+			case "identity":
+				if res.Identity == nil {
+					res.Identity = m.Identity
+					close(gotIdentity)
+				}
+			case "fatal":
+				res.Fatal = m.Msg
+			}
+			mu.Unlock()
+		}
+	}()
+	var werr error
+	go func() {
+		werr = cmd.Wait()
+		close(h.waitDone)
+	}()
+	guard := time.NewTimer(childDeadline)
+	defer guard.Stop()
+	select {
+	case <-gotIdentity:
+		mu.Lock()
+		defer mu.Unlock()
+		res.Output = out.String()
+		return h, res
+	case <-h.waitDone:
+	case <-guard.C:
+		cmd.Process.Signal(syscall.SIGKILL)
+		<-h.waitDone
+		mu.Lock()
+		res.HarnessErr = fmt.Sprintf("child exceeded the harness deadline of %v", childDeadline)
+		mu.Unlock()
+	}
+	// the process is gone
+	<-h.readDone
+	pr.Close()
+	h.ended = true
+	mu.Lock()
+	defer mu.Unlock()
+	if werr != nil {
+		res.Exit = werr.Error()
+	} else {
+		res.Exit = "exit status 0"
+	}
+	res.Output = out.String()
+	return nil, res
+}
+
+// end makes the held process go away - told to stop (its standard input is closed) or
+// SIGKILLed - and returns once it has been reaped: whatever lock it held is released then.
+// A process that does not follow the request in time is killed; that is nobody's verdict.
+func (h *heldT) end(kill bool) {
+	if h == nil || h.ended {
+		return
+	}
+	h.ended = true
+	if kill {
+		h.cmd.Process.Signal(syscall.SIGKILL)
+	} else {
+		h.stdin.Close()
+	}
+	select {
+	case <-h.waitDone:
+	case <-time.After(childDeadline):
+		h.cmd.Process.Signal(syscall.SIGKILL)
+		<-h.waitDone
+	}
+	h.stdin.Close()
+	<-h.readDone
+	h.pr.Close()
+}
+
 // runChild starts one sensor process on dataDir and ends it as the plan says.
 func runChild(dataDir string, r runT, plan killPlan) childResult {
 	var res childResult
-	spec := Spec{DataDir: dataDir, SSH: r.SSH, FTP: r.FTP, SMTP: r.SMTP, LDAP: r.LDAP, Agent: r.Agent, More: r.More, Clients: r.Clients}
-	sj, _ := json.Marshal(spec)
-	pr, pw, err := os.Pipe()
+	cmd, out, pr, pw, err := childCmd(dataDir, r, false)
 	if err != nil {
 		res.HarnessErr = "pipe: " + err.Error()
 		return res
 	}
 	defer pr.Close()
-	cmd := exec.Command(selfExe, "-test.run=^$")
-	var env []string
-	for _, e := range os.Environ() {
-		if strings.HasPrefix(e, "VERIF_OUT=") || strings.HasPrefix(e, "VERIF_REPLAY=") || strings.HasPrefix(e, "VERIF_C18_CHILD=") || strings.HasPrefix(e, "VERIF_DATADIR=") {
-			continue
-		}
-		env = append(env, e)
-	}
-	cmd.Env = append(env, "VERIF_C18_CHILD="+string(sj))
-	out := &tailBuf{}
-	cmd.Stdout = out
-	cmd.Stderr = out
-	cmd.ExtraFiles = []*os.File{pw}
-	cmd.Dir = filepath.Dir(dataDir)
 	before := diskRecords(dataDir)
 	var mu sync.Mutex
 	stopWatch := make(chan struct{})
@@ -870,7 +1021,30 @@ func checkHistory(c histCase) (v verdict) {
 	case tainted:
 		why = fmt.Sprintf("token file left %s (%q)", c.tokenLabel(), c.Token)
 	}
+	// the restart schedule: held is the process of run heldIdx, kept alive while the next
+	// heldLeft runs are started
+	var held *heldT
+	heldIdx, heldLeft, heldEnd := 0, 0, ""
+	endHeld := func() {
+		if held != nil {
+			held.end(heldEnd == "kill")
+			held = nil
+		}
+	}
+	defer func() {
+		if held != nil {
+			held.end(true)
+		}
+	}()
 	for i, r := range c.Runs {
+		if held != nil && heldLeft == 0 {
+			endHeld()
+		}
+		over := ""
+		if held != nil {
+			heldLeft--
+			over = fmt.Sprintf("the process of run %d (services %s)", heldIdx, c.Runs[heldIdx].set())
+		}
 		newRSA := 0
 		for _, it := range r.enabled() {
 			if it != "agent" && !established[it] {
@@ -923,21 +1097,48 @@ func checkHistory(c histCase) (v verdict) {
 			}
 			// the process finished before the kill: it is a completed run
 			v.Labels = append(v.Labels, "kill:too-late")
-			if msg, infra := judge(&v, c, i, r, res, dataDir, tainted, why, known); msg != "" || infra != "" {
+			if msg, infra := judge(&v, c, i, r, res, dataDir, tainted, why, known, over); msg != "" || infra != "" {
+				v.Violation, v.Infra = msg, infra
+				return
+			}
+		} else if r.Overlap > 0 && held == nil && i < len(c.Runs)-1 {
+			// this run's process stays alive while the next run(s) are started
+			h, res := startHeld(dataDir, r)
+			if h != nil {
+				if p, _, _ := attemptProblem(r, res); p != "" {
+					// it has to be looked at again (judge repeats it): not while it is alive
+					h.end(true)
+					h = nil
+				}
+			}
+			if h == nil {
+				v.Labels = append(v.Labels, "overlap:earlier-run-not-up")
+			} else {
+				held, heldIdx, heldLeft, heldEnd = h, i, r.Overlap, r.End
+				if heldLeft > len(c.Runs)-1-i {
+					heldLeft = len(c.Runs) - 1 - i
+				}
+				v.Labels = append(v.Labels, "schedule:overlapping-start", fmt.Sprintf("overlap:window=%d", heldLeft), "overlap:earlier-run-ended-by-"+map[bool]string{true: "kill", false: "exit"}[heldEnd == "kill"])
+			}
+			if msg, infra := judge(&v, c, i, r, res, dataDir, tainted, why, known, ""); msg != "" || infra != "" {
 				v.Violation, v.Infra = msg, infra
 				return
 			}
 		} else {
 			res := runChild(dataDir, r, noKill)
-			if msg, infra := judge(&v, c, i, r, res, dataDir, tainted, why, known); msg != "" || infra != "" {
+			if msg, infra := judge(&v, c, i, r, res, dataDir, tainted, why, known, over); msg != "" || infra != "" {
 				v.Violation, v.Infra = msg, infra
 				return
 			}
+		}
+		if over != "" {
+			continue // nothing is known about what an overlapping start established
 		}
 		for _, it := range r.enabled() {
 			established[it] = true
 		}
 	}
+	endHeld()
 	return
 }
 
@@ -951,40 +1152,53 @@ type seenT struct {
 
 type seenMap = map[string]seenT
 
+// attemptProblem: did this start of run r come up and present every enabled item?
+func attemptProblem(r runT, res childResult) (problem string, harness bool, item string) {
+	if res.HarnessErr != "" {
+		return res.HarnessErr, true, ""
+	}
+	if res.Identity == nil {
+		return "the sensor did not come up: " + describe(res), false, ""
+	}
+	for _, o := range r.observed() {
+		if e, bad := res.Identity.Errs[o.Name]; bad {
+			if strings.HasPrefix(e, "infra:") {
+				// the environment kept the harness from looking at this item in this
+				// run (loopback sockets): the run simply does not observe it
+				continue
+			}
+			return fmt.Sprintf("enabled service %s (%s) presented no identity: %s", o.Name, o.Type, e), false, o.Item
+		}
+		if _, ok := res.Identity.Items[o.Name]; !ok {
+			return fmt.Sprintf("enabled service %s (%s) presented no identity", o.Name, o.Type), false, o.Item
+		}
+	}
+	return "", false, ""
+}
+
 // judge applies the oracle to one completed run. A run that did not come up or did not
 // present an enabled item (to every one of its clients) is repeated once (that is one more
 // restart of the same history); only a reproduced failure counts. What the clients of the
 // failed attempt WERE presented counts as presented all the same.
-func judge(v *verdict, c histCase, i int, r runT, res childResult, dataDir string, tainted bool, why string, known seenMap) (violation, infra string) {
+//
+// over != "": the run was started while an earlier run's process was still alive on the data
+// directory (over says which). The statement does not make such a start succeed - the store
+// is locked by the instance that is still there, refusing to start presents no identity at
+// all - so nothing is demanded of it and it is not repeated. But whatever it DOES present,
+// should it come up, is compared like everything else: never anything but what was first
+// generated on this data directory.
+func judge(v *verdict, c histCase, i int, r runT, res childResult, dataDir string, tainted bool, why string, known seenMap, over string) (violation, infra string) {
 	ctx := fmt.Sprintf("run %d (services %s)", i, r.set())
 	if r.Clients >= 2 {
 		ctx = fmt.Sprintf("run %d (services %s, %d concurrent clients per service instance released together)", i, r.set(), r.Clients)
 	}
+	if over != "" {
+		ctx += " [started while " + over + " was still alive with the data directory open]"
+	}
 	if tainted {
 		ctx += " after " + why
 	}
-	attempt := func(res childResult) (problem string, harness bool, item string) {
-		if res.HarnessErr != "" {
-			return res.HarnessErr, true, ""
-		}
-		if res.Identity == nil {
-			return "the sensor did not come up: " + describe(res), false, ""
-		}
-		for _, o := range r.observed() {
-			if e, bad := res.Identity.Errs[o.Name]; bad {
-				if strings.HasPrefix(e, "infra:") {
-					// the environment kept the harness from looking at this item in this
-					// run (loopback sockets): the run simply does not observe it
-					continue
-				}
-				return fmt.Sprintf("enabled service %s (%s) presented no identity: %s", o.Name, o.Type, e), false, o.Item
-			}
-			if _, ok := res.Identity.Items[o.Name]; !ok {
-				return fmt.Sprintf("enabled service %s (%s) presented no identity", o.Name, o.Type), false, o.Item
-			}
-		}
-		return "", false, ""
-	}
+	attempt := func(res childResult) (problem string, harness bool, item string) { return attemptProblem(r, res) }
 	// Every client of every instance is compared with the first value anybody was presented
 	// for its item on this data directory ("the same as first generated"): that covers the
 	// same instance across runs, instances sharing one item within a run and across runs, and
@@ -1062,6 +1276,25 @@ func judge(v *verdict, c histCase, i int, r runT, res childResult, dataDir strin
 		}
 		return ""
 	}
+	if over != "" {
+		if res.HarnessErr != "" {
+			return "", fmt.Sprintf("%s: %s", ctx, res.HarnessErr)
+		}
+		if res.Identity == nil {
+			v.Labels = append(v.Labels, "overlap:refused-to-start")
+			if strings.Contains(res.Output, "Cannot acquire directory lock") {
+				v.Labels = append(v.Labels, "overlap:refused-to-start:store-locked")
+			}
+			return "", ""
+		}
+		v.Labels = append(v.Labels, "overlap:came-up")
+		for _, tok := range res.Identity.Tokens {
+			if k, ok := known["token"]; ok && k.val != tok {
+				return fmt.Sprintf("%s: events carry token %q, but run %d on the same data directory had %q", ctx, tok, k.run, k.val), ""
+			}
+		}
+		return presented(res.Identity, true), ""
+	}
 	problem, harness, _ := attempt(res)
 	if problem != "" {
 		first := problem
@@ -1131,7 +1364,10 @@ const sampleToken = "9m4e2mr0ui3e8a215n4g"
 // moreTypes: the service types that persist an identity item.
 var moreTypes = []string{"ssh-simulator", "ssh-auth", "ssh-proxy", "ssh-jail", "ftp", "smtp", "ldap"}
 
-func genRun(rt *rapid.T, i int, last bool) runT {
+// genRun draws run i. last: no run follows. inWindow: the run is started while an earlier
+// run's process is still alive (it is then neither killed nor kept alive itself). remaining:
+// how many runs follow.
+func genRun(rt *rapid.T, i int, last bool, inWindow bool, remaining int) runT {
 	var r runT
 	r.SSH = rapid.SampledFrom([]string{"", "ssh-simulator", "ssh-auth", "ssh-simulator", "ssh-auth", "ssh-proxy", "ssh-jail"}).Draw(rt, fmt.Sprintf("ssh%d", i))
 	r.FTP = rapid.IntRange(0, 2).Draw(rt, fmt.Sprintf("ftp%d", i)) > 0
@@ -1153,7 +1389,7 @@ func genRun(rt *rapid.T, i int, last bool) runT {
 		r.Clients = rapid.SampledFrom([]int{2, 2, 3, 4, 5, 6, 6}).Draw(rt, fmt.Sprintf("clients%d", i))
 	}
 	r.Kill = -1
-	if !last {
+	if !last && !inWindow {
 		switch p := rapid.IntRange(0, 9).Draw(rt, fmt.Sprintf("killp%d", i)); {
 		case p < 3:
 			r.Kill = rapid.IntRange(0, killSteps).Draw(rt, fmt.Sprintf("kill%d", i))
@@ -1161,6 +1397,17 @@ func genRun(rt *rapid.T, i int, last bool) runT {
 			r.KillRec = rapid.IntRange(1, 7).Draw(rt, fmt.Sprintf("killrec%d", i))
 		case p == 5 && i == 0:
 			r.KillSibling = true
+		}
+	}
+	// the restart schedule: sequential, or the next 1..2 runs are started while this run's
+	// process is still alive, after which it exits or is killed
+	if !r.killed() && !inWindow && remaining >= 1 {
+		if rapid.IntRange(0, 9).Draw(rt, fmt.Sprintf("overlapp%d", i)) < 3 {
+			r.Overlap = rapid.SampledFrom([]int{1, 1, 2}).Draw(rt, fmt.Sprintf("overlap%d", i))
+			if r.Overlap > remaining {
+				r.Overlap = remaining
+			}
+			r.End = rapid.SampledFrom([]string{"exit", "kill"}).Draw(rt, fmt.Sprintf("end%d", i))
 		}
 	}
 	return r
@@ -1186,8 +1433,15 @@ func genCase(rt *rapid.T) histCase {
 		c.DirExists = true
 	}
 	n := rapid.IntRange(2, 5).Draw(rt, "runs")
+	window := 0
 	for i := 0; i < n; i++ {
-		c.Runs = append(c.Runs, genRun(rt, i, i == n-1))
+		x := genRun(rt, i, i == n-1, window > 0, n-1-i)
+		if window > 0 {
+			window--
+		} else {
+			window = x.Overlap
+		}
+		c.Runs = append(c.Runs, x)
 	}
 	return c
 }
@@ -1219,6 +1473,13 @@ func account(r *vlib.Run, label string, c histCase, v verdict) {
 			changed = true
 		}
 	}
+	sched := "schedule:sequential"
+	for i, x := range c.Runs {
+		if x.Overlap > 0 && !x.killed() && i < len(c.Runs)-1 {
+			sched = "schedule:with-overlapping-start"
+		}
+	}
+	r.Label(sched, 1)
 	if changed {
 		r.Label("svcset:changed", 1)
 	} else {
@@ -1236,7 +1497,7 @@ func account(r *vlib.Run, label string, c histCase, v verdict) {
 	}
 }
 
-const ruleText = "every run of a history is a separate OS process running the real server on one data directory; histories of 2..5 runs with drawn service sets {ssh-simulator|ssh-auth|ssh-proxy|ssh-jail, ftp, smtp, ldap, agent listener, plus 0..3 further instances of these types in the same start - instances of the four ssh types share the ssh host key, instances of one TLS service type share its certificate}, observation schedule of a completed run: one client per service instance in turn, or 2..6 clients per instance (and per agent listener) all taken to just before the step that makes the server use the identity (TLS handshake after AUTH TLS / STARTTLS / LDAP StartTLS, SSH key exchange, Noise handshake) and released together from one barrier, initial token file absent / empty / proper prefix / complete, runs SIGKILLed at a delay on a 41-step grid from process boot to 1.2x the measured start-up time or after a chosen single store write (child frozen and inspected after every value-log change) or the moment a temporary file appears next to the token file; token-file crash states include planted temporary files under the implementation's own (discovered) temporary name; oracle: one well-formed token on all events, every service instance presents the token / host key / certificate / agent key that was presented first for that item on the data directory (same instance across runs, instances sharing an item within a run and across runs, every one of the concurrent clients of an instance; what some clients of a run were presented counts even when other clients of that run were refused), a start after a crash state comes up well-formed; non-trivial = >=1 completed restart after a crash state (empty/prefix token file or a killed start) or a restart with a changed service set or a restart after a start in which >=2 instances shared an item or whose items were used by >=2 concurrent clients; distinct by whole history"
+const ruleText = "every run of a history is a separate OS process running the real server on one data directory; histories of 2..5 runs with drawn service sets {ssh-simulator|ssh-auth|ssh-proxy|ssh-jail, ftp, smtp, ldap, agent listener, plus 0..3 further instances of these types in the same start - instances of the four ssh types share the ssh host key, instances of one TLS service type share its certificate}, observation schedule of a completed run: one client per service instance in turn, or 2..6 clients per instance (and per agent listener) all taken to just before the step that makes the server use the identity (TLS handshake after AUTH TLS / STARTTLS / LDAP StartTLS, SSH key exchange, Noise handshake) and released together from one barrier, restart schedule: sequential (a run has ended before the next is started) or overlapping - the process of a completed, observed run is kept alive (server running, store open) while the next 1..2 runs of the history are started on the same data directory, then it is told to exit or SIGKILLed and the history goes on sequentially (enumerated: kept-alive run is the first start or a restart x exit/kill x 1..2 overlapping starts x service sets; drawn inside the histories), initial token file absent / empty / proper prefix / complete, runs SIGKILLed at a delay on a 41-step grid from process boot to 1.2x the measured start-up time or after a chosen single store write (child frozen and inspected after every value-log change) or the moment a temporary file appears next to the token file; token-file crash states include planted temporary files under the implementation's own (discovered) temporary name; oracle: one well-formed token on all events, every service instance presents the token / host key / certificate / agent key that was presented first for that item on the data directory (same instance across runs, instances sharing an item within a run and across runs, every one of the concurrent clients of an instance; what some clients of a run were presented counts even when other clients of that run were refused), a start made while an earlier instance is still alive may refuse to come up (nothing is presented then, and it is not repeated), but whatever it presents if it does come up is compared like everything else, and so are the sequential runs after it; a start after a crash state comes up well-formed; non-trivial = a history with an overlapping start, or >=1 completed restart after a crash state (empty/prefix token file or a killed start) or a restart with a changed service set or a restart after a start in which >=2 instances shared an item or whose items were used by >=2 concurrent clients; distinct by whole history"
 
 // ---------------------------------------------------------------- tests
 
@@ -1830,4 +2091,112 @@ func TestConcurrentFirstClients(t *testing.T) {
 		}
 	}
 	r.Exhaustive("observation schedules of a first start with one identity-bearing service: {ssh-simulator, ssh-auth, ssh-proxy, ssh-jail, ftp, smtp, ldap, agent listener} x {2, 3, 4, 5, 6} concurrent first clients")
+}
+
+// unionRun: a start that enables what a and b enable.
+func unionRun(a, b runT) runT {
+	u := runT{SSH: a.SSH, FTP: a.FTP || b.FTP, SMTP: a.SMTP || b.SMTP, LDAP: a.LDAP || b.LDAP, Agent: a.Agent || b.Agent, Kill: -1}
+	if u.SSH == "" {
+		u.SSH = b.SSH
+	}
+	return u
+}
+
+// TestOverlappingRestarts: the restart schedule, enumerated at small scope. In every other
+// enumerator a run has ended before the next one is started. Here the process of a completed
+// run K is kept alive - server running, store open - while the next one or two runs are
+// started on the same data directory (the new instance is started before the old one has
+// gone), then K is told to exit or is SIGKILLed, and a sequential run that enables everything
+// seen so far follows. K is the very first start on the data directory or a restart; the
+// overlapping starts enable the same services as K, other ones, or all. An overlapping start
+// may refuse to come up; if it comes up, every item it presents must be the one first
+// generated on the data directory, and the sequential run afterwards must present it too.
+func TestOverlappingRestarts(t *testing.T) {
+	r := vlib.Open(prop)
+	r.Rule(ruleText)
+	var c histCase
+	if vlib.ReplayCase("TestOverlappingRestarts", &c) {
+		v := checkHistory(c)
+		if v.Infra != "" {
+			t.Fatalf("infra: %s", v.Infra)
+		}
+		if v.Violation != "" {
+			r.Violation(t, "TestOverlappingRestarts", v.Used, v.Violation)
+		}
+		return
+	}
+	if vlib.Replaying() {
+		return
+	}
+	all := runT{SSH: "ssh-simulator", FTP: true, SMTP: true, LDAP: true, Agent: true}
+	sets := append(append([]runT(nil), cycle...), all)
+	var cases []histCase
+	add := func(si int, first bool, end string, window int, other int) {
+		k := sets[si%len(sets)]
+		k.Kill = -1
+		var runs []runT
+		if !first {
+			runs = append(runs, k)
+		}
+		held := k
+		held.Overlap, held.End = window, end
+		runs = append(runs, held)
+		last := k
+		for w := 0; w < window; w++ {
+			o := k
+			switch (other + w) % 3 {
+			case 1:
+				o = sets[(si+1+w)%len(sets)]
+			case 2:
+				o = all
+			}
+			o.Kill = -1
+			o.Clients = []int{0, 2}[(si+w)%2]
+			runs = append(runs, o)
+			last = unionRun(last, o)
+		}
+		runs = append(runs, last)
+		cases = append(cases, histCase{TokenFile: "absent", Runs: runs})
+	}
+	if r.Thorough() {
+		for si := range sets {
+			for _, first := range []bool{true, false} {
+				for _, end := range []string{"exit", "kill"} {
+					for window := 1; window <= 2; window++ {
+						for other := 0; other < 3; other++ {
+							add(si, first, end, window, other)
+						}
+					}
+				}
+			}
+		}
+	} else {
+		// the same dimensions, rotated against each other (the seed turns the rotation)
+		rot := int(r.Seed / 1000)
+		for j := 0; j < 16; j++ {
+			add(j+rot, j&1 == 0, []string{"exit", "kill"}[(j>>1)&1], 1+(j>>2)&1, j+j>>3+rot)
+		}
+	}
+	shard, shards := r.Shard()
+	failed := 0
+	for i, c := range cases {
+		if i%shards != shard {
+			continue
+		}
+		v := checkHistory(c)
+		if v.Infra != "" {
+			t.Fatalf("infra: %s", v.Infra)
+		}
+		account(r, "overlapping-restart", c, v)
+		if v.Violation != "" {
+			r.Violation(t, "TestOverlappingRestarts", v.Used, v.Violation)
+			if failed++; failed >= maxReports {
+				t.Logf("stopping after %d violations", failed)
+				return
+			}
+		}
+	}
+	if r.Thorough() {
+		r.Exhaustive("overlapping restart schedules at small scope: 8 service sets x kept-alive run is the first start / a restart x ended by exit / SIGKILL x 1..2 overlapping starts x overlapping starts enable the same / other / all services")
+	}
 }
